@@ -818,6 +818,69 @@ def connack_property_arms(f):
     return out
 
 
+def clause_connack_walk_complete(R, key):
+    """Every property of the CONNACK is looked at: inside the handshake's property loop an arm may leave with an error, but
+    the walk ends *successfully* only when the iterator is exhausted.  An arm that returns Ok (or breaks out of the loop)
+    silently ignores every property encoded after it -- Receive Maximum, Maximum Packet Size, Server Keep Alive, Maximum
+    QoS each depend on being reached."""
+    from .. import paths as _paths
+    f = R.f
+    call, hb, hcode = handshake(f)
+    n = 0
+    bad = []
+    for cb in [hcode] + [c for c in f.children(hcode) if c.kind == "closure"]:
+        for bb in sorted(cb.switches):
+            if bb not in cb.reachable:
+                continue
+            si = cb.switch_info(bb)
+            if si["enum"] != "properties::Property":
+                continue
+            # the loop head: the closest Iterator::next call that dominates the dispatch
+            heads = [c.bb for c in cb.calls.values() if c.bb in cb.reachable and c.is_("Iterator::next", "core::iter::Iterator::next")
+                     and cb.dominates(c.bb, bb)]
+            if not heads:
+                continue
+            head = max(heads, key=lambda h: len([x for x in heads if cb.dominates(x, h)]))
+            R.touch(cb)
+            n += 1
+            exits_after_loop = cb.reach([head], avoid=[bb])
+            for v, tgt in list(si["edges"].items()) + [("_", si["otherwise"])]:
+                if tgt is None:
+                    continue
+                leaves = _paths.explore(cb, tgt, lambda t: False, lambda b, x: False, stop_pred=lambda b, x, head=head: x == head)
+                for lf in leaves:
+                    if lf["kind"] == "stop":
+                        continue
+                    if lf["kind"] != "return":
+                        continue
+                    if cb.kind != "closure":
+                        # the loop lives in the handshake: leaving the arm without passing the loop head skips the rest
+                        val = None
+                    val = None
+                    for pb in lf["path"]:
+                        for st in cb.blocks[pb]["stmts"]:
+                            if st["k"] == "assign" and st["dst"]["l"] == 0:
+                                val = cb.rvalue_term(st["rv"])
+                        c = cb.calls.get(pb)
+                        if c is not None and c.dst["l"] == 0:
+                            val = cb.call_term(pb)
+                    if val is not None and val[0] == "agg" and val[3] == "Err":
+                        continue
+                    if val is not None and is_call_term(val, "from_residual"):
+                        continue
+                    bad.append("%s arm at %s" % (v, cb.line(tgt)))
+    if n == 0:
+        raise AnchorLost("connack-property-loop")
+    R.ob(key, not bad,
+         "the walk over the CONNACK's properties ends successfully only when every property was looked at: no arm returns "
+         "Ok or leaves the loop early%s" % ((" (found: %s)" % "; ".join(sorted(set(bad))[:3])) if bad else ""), where=hb.span)
+
+
+def is_call_term(t, *names):
+    from ..core import is_call as _ic
+    return _ic(t, *names)
+
+
 def element_predicate_table(f, body, field, elem_adt, dims):
     """Truth table of the per-element test of a boolean search over `field` (`.iter().any(|e| ..)`, or the loop it is read
     as): for every combination of variants of the element's enum-typed fields `dims` = [(field name, adt)] the value the
